@@ -28,7 +28,7 @@ MODULE = "Sqfs.Props.C09"
 REQUIRED = ["Sqfs.C09." + t for t in (
     "inv_init", "inv_step", "inv_reachable", "run_reachable", "strict_reachable", "fifo", "fifo_run", "at_most_once",
     "returned_at_most_once", "no_item_lost", "exactly_once", "ctx_exclusive", "ctx_owner", "no_lost_wakeup", "no_deadlock",
-    "no_deadlock_flag", "failure_recorded", "failure_sticky", "failure_reported_submit", "failure_reported_get_status",
+    "no_deadlock_flag", "api_returns", "failure_recorded", "failure_sticky", "failure_reported_submit", "failure_reported_get_status",
     "failure_reported_dequeue")]
 WITNESS_MODULE = "Sqfs.Witness.C09"
 WITNESS_REQUIRED = ["Sqfs.Witness.C09." + t for t in (
@@ -199,7 +199,7 @@ def compare(ctx, harness, rep, scripts, stats, label):
     if not scripts:
         return 0
     t0 = time.time()
-    impl, problems = run_parallel(ctx, [str(harness)], scripts, 1500)
+    impl, problems = run_parallel(ctx, [str(harness)], scripts, 120 + len(scripts) // 50)
     t1 = time.time()
     model = model_run(ctx, scripts)
     stats["harness_s"] += t1 - t0
